@@ -198,13 +198,30 @@ def check(program, rep):
                                    "written only by its owner: %s" % (
                                        o[2], allow[1]), e.node)
                         else:
-                            rep.bad("C17-R2", inst,
-                                    "writes module state %s.%s" % (o[1],
-                                                                   o[2]),
-                                    "%s writes the module-level mutable "
-                                    "%s.%s (%s): results depend on earlier "
-                                    "calls" % (q, o[1], o[2], e.text),
-                                    e.node)
+                            # a memo whose entries are functions of their
+                            # keys cannot be observed; one whose key leaves
+                            # out something the value depends on answers
+                            # with another call's result
+                            from ..memo import memo_verdict
+                            try:
+                                verdict, text = memo_verdict(fn, o[2])
+                            except AnalysisError as ex:
+                                verdict, text = "unknown", str(ex)
+                            if verdict == "ok":
+                                rep.ok("C17-R2", inst, "module-level %s is "
+                                       "a memo: %s" % (o[2], text), e.node)
+                            elif verdict == "unknown":
+                                rep.undecided("C17-R2", "%s writes the "
+                                              "module-level %s.%s: %s" % (
+                                                  q, o[1], o[2], text))
+                            else:
+                                rep.bad("C17-R2", inst,
+                                        "writes module state %s.%s" % (
+                                            o[1], o[2]),
+                                        "%s answers from the module-level "
+                                        "mutable %s.%s (%s): %s" % (
+                                            q, o[1], o[2], e.text, text),
+                                        e.node)
             # a result cache on a generator function hands the same
             # (exhausted) generator to later callers: remembered state
             decs = [unparse(d) for d in getattr(fn, "decorator_list", [])]
